@@ -336,6 +336,18 @@ def run(world, rep, tier, only=None):
                    "every path from `%s` (line %d) to the end of %s passes a store to bp->rcursor_next" % (n.text()[:30], n.line, f.name))
     rep.floor("C16.j stores that move the read cursor to an extent", n_cur, 1)
 
+    # ------------------------------------------------------------------ C16.k the first clear bit of an empty set is where the search starts
+    # ENOENT from find_first_zero means "every bit of the range is set".  A tree without extents has no bit set: the
+    # routine must not answer ENOENT because the tree is empty (the bit array answers `start`).
+    rfz = prog.fn("rb_find_first_zero", RB)
+    bad_k = []
+    for r_ in rfz.events("R"):
+        if "ENOENT" in T.macros(r_.ev.get("x") or {}) or T.const(r_.ev.get("x")) == 2:
+            if any(t is True and any(cc.get("fn") == "ext2fs_rb_empty_root" for cc in T.calls(a_)) for t, a_ in control_lits(rfz, r_)):
+                bad_k.append(r_.line)
+    rep.ob("C16.k", site(rfz, "an empty tree is not reported as full"), not bad_k,
+           "returns of ENOENT under ext2fs_rb_empty_root(): %s" % bad_k)
+
     # ------------------------------------------------------------------ C16.d set_range assigns in both backends
     # the bit array copies the bytes over the range; the tree must drop what the range held before inserting
     ba = prog.fn("ba_set_bmap_range", "lib/ext2fs/blkmap64_ba.c")
